@@ -250,6 +250,7 @@ func (x *Exec) restart(why string) {
 	desc, contradiction := x.localSituation() // what the restarting node finds, seen from outside
 	x.startNode()
 	x.C.Obs("restart (%s; %s): start-up %s", why, desc, map[bool]string{false: "completed", true: "did NOT complete (" + x.initStage + ")"}[x.initPending])
+	x.Ag.FailCall = 0 // an armed n-th-call failure concerns the calls of this start-up only
 	x.judgeRestart(why, desc, contradiction)
 }
 
@@ -262,6 +263,17 @@ func (x *Exec) localSituation() (desc string, contradiction bool) {
 	maxH, any := x.Ag.MaxHeight()
 	for _, r := range rows {
 		if !x.Ag.Knows(r.ID) {
+			// One situation gets a name of its own (a known finding is recorded under it): the Agglayer has lost the RETRY of
+			// an InError certificate that the node had recorded (also InError meanwhile) and still holds the earlier, failed
+			// certificate of that height, which the node knows from its history table.
+			if last := x.Ag.Last(); last != nil && r.Status == agglayertypes.InError && last.Status == agglayertypes.InError &&
+				last.Height == r.Height && x.k.ctl != nil {
+				for _, h := range ReadRows(x.k.ctl, "certificate_info_history") {
+					if h.ID == last.ID && h.Height == r.Height && h.Retry < r.Retry {
+						return "local-id-unknown-to-agglayer/in-error-retry-lost-by-the-agglayer-which-holds-the-earlier-in-error-certificate", true
+					}
+				}
+			}
 			return "local-id-unknown-to-agglayer", true
 		}
 		if !any || r.Height > maxH {
@@ -314,7 +326,7 @@ func (x *Exec) judgeRestart(why, desc string, contradiction bool) {
 // L2 events exist, at most two epoch ticks produce a submission. It runs on the objects of this
 // execution after the state key is fixed by the caller (the execution is discarded afterwards).
 func (x *Exec) probeProgress(why, desc string) {
-	x.Ag.FailNext, x.k.proverShort = false, false
+	x.Ag.FailNext, x.Ag.FailCall, x.k.proverShort = false, 0, false
 	for _, e := range x.Ag.OpenEntries() {
 		x.Ag.Settle(e)
 	}
@@ -409,6 +421,11 @@ func (x *Exec) apply(ev string) {
 		name = base
 		x.Ag.FailNext = true
 	}
+	if base, ok := strings.CutSuffix(name, "+fail2"); ok {
+		// the SECOND call of the start-up fails (the first one, the settled-certificate query, is answered)
+		name = base
+		x.Ag.FailCall = 2
+	}
 	recoveryFault := false
 	if base, ok := strings.CutSuffix(name, "+fault"); ok {
 		// the first write statement of the save made by the start-up reconciliation fails
@@ -422,6 +439,10 @@ func (x *Exec) apply(ev string) {
 		}
 	case "EpochTick", "StatusTick":
 		crashAt, faultK := "", 0
+		failAtRestart := 0
+		if base, ok := strings.CutSuffix(arg, "+fail2"); ok {
+			arg, failAtRestart = base, 2
+		}
 		if strings.HasPrefix(arg, "crash@") {
 			crashAt = strings.TrimPrefix(arg, "crash@")
 		} else if strings.HasPrefix(arg, "fault@") {
@@ -436,6 +457,7 @@ func (x *Exec) apply(ev string) {
 				x.witness("crash-point-not-reached(stop-after-tick)")
 			}
 			// the process stops here: at the armed point if it was reached, after the iteration otherwise
+			x.Ag.FailCall = failAtRestart // (the n-th Agglayer call of the start-up fails once)
 			x.restart("a stop at " + crashAt + map[bool]string{true: "", false: " (point not reached: stop after the iteration)"}[crashed])
 		}
 		if faultK > 0 {
@@ -534,12 +556,13 @@ func (x *Exec) enabled() []string {
 	if x.Opt.Crashes && x.budgetUsed < x.Opt.MaxCrashEvents {
 		ev = append(ev, "Restart", "LoseDB")
 		if x.Opt.NoPlainFailNext {
-			ev = append(ev, "Restart+fail", "LoseDB+fail")
+			ev = append(ev, "Restart+fail", "LoseDB+fail", "Restart+fail2", "LoseDB+fail2")
 		}
 		if x.Cfg.Faults && len(x.Ag.Entries) > 0 {
 			ev = append(ev, "LoseDB+fault") // the recovery save is a save transaction too
 		}
-		if x.Opt.Contradictions && len(x.Ag.Entries) > 0 {
+		if x.Opt.Contradictions && len(x.Ag.Entries) > 0 && x.Ag.Last().Status != agglayertypes.Settled {
+			// (a settled certificate is final, DESIGN §5.5: the model Agglayer never loses one)
 			ev = append(ev, "AgglayerLosesLast")
 		}
 		// An iteration can submit only when nothing is undecided and something is unsent (a submission
@@ -561,6 +584,10 @@ func (x *Exec) enabled() []string {
 			for _, k := range kinds {
 				for _, p := range CrashPoints {
 					ev = append(ev, k+"/crash@"+p)
+					if x.Opt.NoPlainFailNext && p == "afterSubmitBeforeStore" && k == "EpochTick" {
+						// the node comes back while the Agglayer answers its first query and fails the second one
+						ev = append(ev, k+"/crash@"+p+"+fail2")
+					}
 				}
 				for f := 1; f <= nf; f++ {
 					ev = append(ev, fmt.Sprintf("%s/fault@%d", k, f))
